@@ -96,7 +96,7 @@ impl<M: MovingAverageConstructor> IndicatorConfig for ChandeKrollStop<M> {
 	}
 
 	fn validate(&self) -> bool {
-		self.x >= 0.0 && self.ma.ma_period() > 0 && self.q > 0
+		self.x >= 0.0 && self.x.is_finite() && self.ma.ma_period() > 0 && self.q > 0
 	}
 
 	fn set(&mut self, name: &str, value: String) -> Result<(), Error> {
